@@ -103,7 +103,9 @@ def build(ck):
     # ================================================================== alg facet
     T = BK.BlockTheory(P, core_as_terms=False)
     CX.install(T)
-    ax = A.reduce_axioms() + BK.inverse_axioms() + [A.invw(A.EMPTY) == A.EMPTY]
+    # quantifier-free background only (refuting an obligation under quantified axioms is slow): ground instances are
+    # stated where a scenario needs them
+    ax = [A.invw(A.EMPTY) == A.EMPTY]            # LA3: inv(id) = id
 
     def homothety_alg(S):
         S.oracle = {'name': 'closed_forms'}
@@ -137,6 +139,8 @@ def build(ck):
             X = z3.Const('X', A.Op)             # an operator of unknown class
             S.inputs['X'] = X
             operand, stored = X, A.reduced(X)
+            r_ = A.reduced(X)        # C01's contract of X.reduce() for this X (instance of theories/alg.reduce_axioms)
+            S.assume(z3.And(A.denw(r_) == A.denw(X), A.denc(r_) == A.denc(X), A.ins(r_) == A.ins(X), A.outs(r_) == A.outs(X)))
             made = S.call(ClassRef(P.cls(f'{CORE}.InverseOperator')), [X])
         else:
             # an operator whose class keeps the defaults of AbstractLinearOperator (inverse, I, reduce)
@@ -248,7 +252,7 @@ def build(ck):
             S.assume(match)
             c, w, i_, o_ = A.den_of(S.I, out.value)
             S.oblige('post', z3.And(w == z3.Concat(wi_, wo), c == ci_ * co), tag='A.I @ B: denotes-the-product', exact=False)
-    ck.explore(f'{CORE}.AbstractLazyInverseOperator.__matmul__', lazy_matmul, T, axioms=ax + [A.ax_empty()],
+    ck.explore(f'{CORE}.AbstractLazyInverseOperator.__matmul__', lazy_matmul, T, axioms=ax,
                call_hook=A.plain_call_hook)
 
     # ------------------------------------------------------------------ InverseOperator.mv: wiring of the solve
